@@ -47,6 +47,10 @@ claimed = {
    text="Differential schedule search: a batch of 2-4 generated scripts that all use the same relative names (files, directories, variables, background processes, [exec:tool] guards with per-script PATHs, stop / skip / failing lines, deferred calls; unique or colliding script file names; TestWork / WorkdirRoot / RequireUniqueNames / failing Setup / host GORACE / -parallel limit) runs under one RunT with every file, environment, atomic and once-cache operation of the parallel subtests as a scheduler decision; then each script runs alone and must give the same verdict, log, probe records (cwd, variables, tree listing with content hashes), deferred-call order and final tree. Direct invariants: the tree at Setup is exactly the archive, the environment is exactly the documented variables (+GORACE pass-through) with host variables invisible to env, expansion and child processes, deferred functions ran on every exit path in reverse order, no child alive or unreaped when its subtest ends, work directories removed or retained as requested and the private GOTMPDIR empty afterwards, distinct subtest names, no hang.",
    note="Children are stubs. Runs as root, so read-only directories do not hinder removal. The pty (ttyin) path does real terminal I/O and is not generated. Process-global program names are made unique per plan and phase.",
    tech="deterministic simulation: seeded scheduler over intercepted file/env/atomic operations of parallel scripts, solo-vs-batch equivalence + end-of-run invariants"),
+ "C01": dict(cat="exploration", ref="3 (C01), 6 (F11)",
+   text="SCOPED to the engine around commands (the part of the statement whose truth depends on other parties and their timing): generated scripts over guards ([cond]/[!cond] with a custom Condition), !, exec foreground / background / named, wait [name], kill, stdout / stderr with -count, cmp stdout|stderr file, stdin, exists, stop, skip, unknown and custom commands, phase comments, with and without ContinueOnError, run against stub child processes with seeded exit code, output and run time under several process-latency assignments and schedule seeds; verdict (pass/fail/skip), first offending line named in the log, and the set of lines that had effects must equal those of a ~200-line reference evaluator written from doc.go, for every timing; no child is left behind.",
+   note="NOT decided here (pure input->output semantics, no schedule/clock/fault): the file-manipulating built-ins (cd chmod cmpenv cp grep mkdir mv rm symlink unquote unix2dos, cmp on files), regular-expression semantics, RequireExplicitExec/Main registration, the cmd/testscript binary's exit status. Lines whose meaning is timing dependent or undocumented in the current state are dropped at rendering.",
+   tech="deterministic simulation: stub child processes with seeded latencies on a fake clock, reference evaluator, verdict invariance under timing"),
 }
 na = {
  "C02": "pure function of the line text and the assignment history: no schedule, clock, fault or second party for a simulator to own",
